@@ -2,9 +2,9 @@
    Only statements, closed by [exact lemma], with Print Assumptions beneath. *)
 From Coq Require Import String List NArith ZArith Bool Permutation.
 From J5V.lib Require Import Outcome.
-From J5V.model Require Import ReflectDesc ReflectSchema Reflect ExportForm Export ExportApi.
+From J5V.model Require Import ReflectDesc ReflectSchema Reflect ReflectOwn ExportForm Export ExportApi.
 From J5V.gen Require ReflectGen.
-From J5V.proofs Require Import ReflectProofs ExportProofs ReflectInvProofs ExportApiProofs.
+From J5V.proofs Require Import ReflectProofs ExportProofs ReflectInvProofs ReflectWeakProofs ExportApiProofs.
 Import ListNotations.
 
 Definition entries_of (st : sset) : list (ref * root) :=
@@ -73,20 +73,20 @@ Theorem C15_roundtrip_partial : forall S : list (ref * root),
 Proof. exact export_import_roundtrip. Qed.
 Print Assumptions C15_roundtrip_partial.
 
-(* ---- the conclusion of the full statement under the hypothesis wf_keys: enums non-empty (protodesc
-   guarantees it) and the "_"-joined names of messages / enums / real oneofs pairwise distinct (a linked
-   set does NOT guarantee it: the known name-collision finding). Nothing is assumed about property or
-   JSON names. Every successful reflection then exports, re-imports and re-exports to exactly the same
-   form, every reference resolved. This is the statement over the flat list of exported schemas
-   ([export_set]); C15_api_roundtrip below is the same through the package structure of the API. *)
+(* ---- the conclusion of the full statement over the flat list of exported schemas ([export_set]), for
+   EVERY descriptor set: no hypothesis (the former hypothesis wf_keys, distinct split names, is gone: what
+   the round trip needs of a reflected set, distinct keys, no placeholder, importable scalar formats,
+   closed references, is proved of every successful reflection in ReflectWeakProofs.v). Every
+   successful reflection exports, re-imports and re-exports to exactly the same form, every reference
+   resolved. C15_full below is the same through the package structure of the API. *)
 Theorem C15_reflected_roundtrip : forall D fs S,
-  wf_keys D -> reflect D fs = Ok S ->
+  reflect D fs = Ok S ->
   exists X, export_set S = Ok X /\
   exists S', import_api X = ROk S' /\
     (forall k x, In (k, x) X -> exists r', lookup S' k = Some (Linked r') /\ export_root r' = x) /\
     (forall k, ~ In k (map fst X) -> lookup S' k = None) /\
     refs_resolved S' = true.
-Proof. exact reflect_export_import_roundtrip. Qed.
+Proof. exact reflect_export_import_roundtrip_any. Qed.
 Print Assumptions C15_reflected_roundtrip.
 
 (* ---- the package bookkeeping of APIFromImage (getSchemaSet / getPackage / getSubPackage /
@@ -104,9 +104,14 @@ Theorem C15_routing_keeps_every_entry : forall W X api,
 Proof. exact route_all_entries. Qed.
 Print Assumptions C15_routing_keeps_every_entry.
 
-(* ---- the full statement under the hypothesis wf_keys *)
+(* ---- THE FULL STATEMENT, proved: no hypothesis on the descriptor set, the services, the listed
+   packages or the order in which the files are visited *)
+Theorem C15_full : C15_full_statement.
+Proof. exact api_roundtrip. Qed.
+Print Assumptions C15_full.
+
 Theorem C15_api_roundtrip : forall D svcs W fs api,
-  wf_keys D -> api_from_image D svcs W fs = Ok api ->
+  api_from_image D svcs W fs = Ok api ->
   exists S', import_packages api = ROk S' /\
     (forall k x, In (k, x) (api_entries api) -> exists r', lookup S' k = Some (Linked r') /\ export_root r' = x) /\
     (forall k, ~ In k (map fst (api_entries api)) -> lookup S' k = None) /\
@@ -116,9 +121,9 @@ Print Assumptions C15_api_roundtrip.
 
 (* and APIFromImage does succeed when addStructure accepts the services and topics of the image, the
    reflection succeeds and every package name splits *)
-Theorem C15_api_from_image_ok : forall D svcs W fs S apiS,
-  wf_keys D -> add_structure W (api_init W) svcs = ROk apiS ->
-  reflect D fs = Ok S -> packages_split S -> exists api, api_from_image D svcs W fs = Ok api.
+Theorem C15_api_from_image_ok : forall D svcs W fs S ow apiS,
+  add_structure W (api_init W) svcs = ROk apiS ->
+  o_reflect D fs = Ok (S, ow) -> packages_split S -> exists api, api_from_image D svcs W fs = Ok api.
 Proof. exact api_from_image_ok. Qed.
 Print Assumptions C15_api_from_image_ok.
 
